@@ -9,5 +9,6 @@ import TinsModel.Props.C08
 #print axioms Tins.Props.C08.untouched_unless_reassembled
 #print axioms Tins.Props.C08.not_fragment_untouched
 #print axioms Tins.Props.C08.interleave_independent
+#print axioms Tins.Props.C08.no_datagram_from_holes
 #print axioms Tins.Props.C08.key_reuse_refines_fails
 #print axioms Tins.Props.C08.key_reuse_refines_partial
